@@ -4,6 +4,8 @@
 mod enc;
 #[path = "../gens.rs"]
 mod gens;
+#[path = "../stack.rs"]
+mod stack;
 use enc::*;
 use gens::*;
 use arimaa_engine_step::*;
@@ -133,5 +135,9 @@ pub fn conc_main(a: &[String]) {
 
 fn main() {
     let args: Vec<String> = std::env::args().collect();
-    conc_main(&args[1..]);
+    if args.len() > 1 && args[1] == "stack" {
+        stack::stack_main(&args[2..]);
+    } else {
+        conc_main(&args[1..]);
+    }
 }
